@@ -193,9 +193,25 @@ def warmup_sessions(ck, n_scen, forced=None):
         wd = os.path.join(ck.scratch, '%s%d' % ('wf' if forced else 'w', idx))
         os.makedirs(wd)
         suite = {'gauge_adapter': 'RebenchLog', 'command': 'h %(benchmark)s', 'benchmarks': ['B']}
+        runs_level = {'invocations': n_inv}
+        shape = (idx * 7 + (w or 0)) % 4 if not forced else 0
         if w is not None:
-            suite['warmup'] = w
-        cfg = {'default_experiment': 'T', 'default_data_file': 't.data', 'runs': {'invocations': n_inv},
+            if shape in (0, 1):
+                suite['warmup'] = w                      # configured on one level
+            else:
+                # configured on the benchmark (incl. an explicit 0) over a different value on a more general level
+                suite['benchmarks'] = [{'B': {'warmup': w}}]
+                if shape == 2:
+                    runs_level['warmup'] = w + 2
+                else:
+                    suite['warmup'] = 4 if w != 4 else 1
+        if not forced and idx % 3 == 1:
+            # text that goes into the identifying columns of every data line: a tab, blanks, non-ASCII
+            bd = suite['benchmarks'][0] if isinstance(suite['benchmarks'][0], dict) else {'B': {}}
+            bd['B']['extra_args'] = ["--sep '\t' --quote none", 'a  b ', 'gr\u00f6\u00dfe \u2713'][idx % 9 // 3]
+            suite['benchmarks'] = [bd]
+            suite['command'] = 'h %(benchmark)s %(extra_args)s' if False else suite['command']
+        cfg = {'default_experiment': 'T', 'default_data_file': 't.data', 'runs': runs_level,
                'benchmark_suites': {'S': suite}, 'executors': {'E': {'path': '.', 'executable': 'exe'}},
                'experiments': {'T': {'suites': ['S'], 'executions': ['E']}}}
         conf = drive.write_config(wd, cfg)
@@ -204,6 +220,8 @@ def warmup_sessions(ck, n_scen, forced=None):
         def script(rec, vals=vals, state=state, extra=extra, style=styles.get(idx, 'repr')):
             k = state['k']
             state['k'] += 1
+            if k >= len(vals):
+                return drive.Outcome(1, '')        # everything was measured already: the harness refuses
             crit = ['B: heap size: 4096kb\n', 'B gc: iterations=1 runtime: 250us\n', 'B: allocated: 12.5MB\n'][:extra]
             out = ''.join(''.join(crit) + 'B: iterations=1 runtime: %sms\n' % spell(style, v)[0] for v in vals[k])
             return drive.Outcome(0, out)
@@ -228,19 +246,28 @@ def warmup_sessions(ck, n_scen, forced=None):
         finally:
             rbm.ReBench.execute_experiment = orig
         ck.impl_traces += 2
-        inp = {'warmup': w, 'invocations': n_inv, 'iterations': its, 'values': vals, 'extra_criteria': extra}
+        inp = {'warmup': w, 'invocations': n_inv, 'iterations': its, 'values': vals, 'extra_criteria': extra,
+               'suite': suite, 'runs': runs_level, 'spelling': styles.get(idx, 'repr')}
         ck.count('warmup:%s' % w)
         ck.count('iterations:%s' % ('<=7' if its <= 7 else '18-60'))
         ck.count('extra-criteria:%d' % extra)
         ck.count('spelling:%s' % styles.get(idx, 'repr'))
+        ck.count('warmup-levels:%s' % (['one', 'one', 'benchmark-over-runs', 'benchmark-over-suite'][shape] if w is not None else 'none'))
+        ck.count('text-in-run-columns:%s' % ('yes' if (not forced and idx % 3 == 1) else 'no'))
         ck.case(nontrivial_key=('w', w, n_inv, its, hash(str(vals))) if (w or 0) > 0 else None,
                 sample={'warmup': w, 'values': vals} if idx < 2 else None)
+        if len(r2.starts) != 0:
+            ck.disagree('c15.warmup: reload session started processes', inp, {'starts': len(r2.starts)}, ans)
+            # the recorded samples were not all reloaded: the second session measured again instead
+            ck.oracle_fail('reloaded_equals_measured', inp,
+                           {'reload_session_started_processes': len(r2.starts),
+                            'second_session': r2.status()},
+                           {'kind': 'reload-incomplete'})
+            continue
         if r1.crash or r2.crash or 's' not in live_stats or 's' not in reload_stats:
             ck.disagree('c15.warmup: session did not run as the model assumes', inp,
                         {'s1': r1.status(), 's2': r2.status(), 'crash': r1.crash or r2.crash}, ans)
             continue
-        if len(r2.starts) != 0:
-            ck.disagree('c15.warmup: reload session started processes', inp, {'starts': len(r2.starts)}, ans)
         want = [Fraction(v) for inv in vals for v in inv[(w or 0):]]
         for (name, st, key) in (('live', live_stats['s'], 'live_stats'), ('reload', reload_stats['s'], 'reload_stats')):
             m = ans[key]
